@@ -2,6 +2,7 @@ package sctp
 
 import (
 	"context"
+	"errors"
 	"fmt"
 	"time"
 
@@ -32,6 +33,10 @@ type shutSpec struct {
 	// KillShutdown: the first n packets from A carrying SHUTDOWN are lost (a loss burst on the
 	// shutdown chunk itself: it is retransmitted until it gets through)
 	KillShutdown int
+	// ExpiredReader: B's reader polls with short read deadlines and, when one expires, idles
+	// for a while with the expired deadline in place before it re-arms and reads on: the
+	// closure of the association must still reach it (and every message before that).
+	ExpiredReader bool
 }
 
 func shutScenario(spec *shutSpec) *Scenario {
@@ -123,7 +128,14 @@ func shutScenario(spec *shutSpec) *Scenario {
 					}
 					buf := make([]byte, 8192)
 					for {
+						if spec.ExpiredReader && ep == 1 {
+							_ = s.SetReadDeadline(time.Now().Add(300 * time.Millisecond))
+						}
 						n, ppi, err := s.ReadSCTP(buf)
+						if err != nil && spec.ExpiredReader && ep == 1 && errors.Is(err, ErrReadDeadlineExceeded) {
+							m.Sleep(5 * time.Second)
+							continue
+						}
 						if err != nil {
 							mu.Lock()
 							rerr[ep] = err
@@ -323,11 +335,24 @@ func propC08(j *Job) {
 								return
 							}
 						}
-						if !bdata && !late && crossed == 0 && si > 0 {
+						if !bdata && !late && si > 0 && crossed < 2 {
+							es := *spec
+							es.ExpiredReader = true
+							j.Explore(fmt.Sprintf("S/%s/m%d/x%d/expired-reader", mode.Name, len(sizes), crossed), shutScenario(&es), Budget{K: 1}, nil)
+							if j.capped() {
+								return
+							}
+						}
+						if !bdata && !late && si > 0 {
+							// (crossed: B's SHUTDOWN finds A with all its data still unacknowledged)
 							for _, ev := range []string{"abortB", "readerrA", "closeB"} {
 								is := *spec
 								is.Interrupted, is.InterruptAfter = ev, 2*time.Second
-								j.Explore(fmt.Sprintf("S/%s/m%d/interrupted/%s", mode.Name, len(sizes), ev), shutScenario(&is), Budget{K: 0}, nil)
+								name := fmt.Sprintf("S/%s/m%d/interrupted/%s", mode.Name, len(sizes), ev)
+								if crossed != 0 {
+									name = fmt.Sprintf("S/%s/m%d/x%d/interrupted/%s", mode.Name, len(sizes), crossed, ev)
+								}
+								j.Explore(name, shutScenario(&is), Budget{K: 0}, nil)
 								if j.capped() {
 									return
 								}
